@@ -23,15 +23,20 @@ SPEC = {
                 4: "circuit-id key (pad / truncate) identical on both sides",
                 5: "VLAN pair key identical on both sides",
                 6: "ALG port key identical on both sides",
-                7: "LPM (prefix) key: an address inside the configured prefix is matched"},
+                7: "LPM (prefix) key: an address inside the configured prefix is matched",
+                8: "value member holding an address / MAC: the bytes the control plane stores for the value it means are the wire bytes the program compares with the packet",
+                9: "16-bit port member of a key: the bytes the control plane looks up are the raw port word the program stored"},
     "rule": "layouts: one case per regenerated (Go type, C type, map) triple (exhaustive over the triples), each with the two "
             "compiler offsetof tables, N value tuples written by the real Go code into a kernel map and read back raw, N raw byte "
-            "strings read by the real Go readers; keys: one case per (derivation, input): the bytes the real Go code left in the kernel "
+            "strings read by the real Go readers; value members: one case per (member family, value): the real manager API called with the value it means, member bytes at the "
+            "regenerated C offset + the real program run on a packet carrying the value; keys: one case per (derivation, input): the bytes the real Go code left in the kernel "
             "map + whether the real eBPF program under BPF_PROG_TEST_RUN found them; distinct = distinct Coq case terms",
     "assumptions": [
         "BTF is produced by clang from the same source it compiles; it is cross-checked against clang's own offsetof/sizeof for the BPF target "
         "and for x86-64, so a clang layout bug common to its BTF emitter and its code generator is not caught",
         "members named _pad* are padding the programs never read (checked by name only)",
+        "how each member is USED by the programs (packet bytes / native integer / unused) is a hand-written table (Model/LayoutEnc.v usage_table) read off bpf/*.c; "
+        "the regenerated member list must be covered by it and packet-bytes members must keep the element shape the entry was established for",
         "member identity across the two languages is the member name up to case and underscores (NextPort = next_port); a rename on one side "
         "only is reported although the bytes still agree",
         "ring-buffer / perf records (nat_log_entry, spoof_event) are not map values: the Go side may be a prefix of the C record (tail padding)",
@@ -44,7 +49,10 @@ SPEC = {
     "modelled": ["cilium/ebpf sysenc marshalling = encoding/binary rules (sequential, no padding, blank fields zero, native endian, exact size; per-CPU values as slices) - measured on every run",
                  "pkg/ebpf MACToUint64, IPToUint32, MakeCircuitIDKey, HashCircuitID, VLANKey; pkg/nat ipToKey, ConfigureALG key; pkg/qos ipToKey; pkg/antispoof macToUint64, AddBinding, AddAllowedRange",
                  "bpf/dhcp_fastpath.c mac_to_u64, extract_circuit_id_fixed (copy loop), vlan_key construction; bpf/antispoof.c mac_to_u64, saddr compare, lpm_key_v4; bpf/nat44.c saddr key, check_alg_trigger; bpf/qos_ratelimit.c daddr key",
-                 "kernel LPM trie matching (most significant bit first over the key bytes)"],
+                 "kernel LPM trie matching (most significant bit first over the key bytes)",
+                 "pkg/antispoof AddBindingV6 (copy into [16]byte) vs antispoof.c s6_addr[i] compare; pkg/ebpf SetServerConfig (copy mac[:6]) vs copy_mac(eth->h_source, config->server_mac); "
+                 "pkg/nat LookupSession port members vs nat44.c key.src_port = udp->source",
+                 "usage of every map member by the programs (Model/LayoutEnc.v usage_table)"],
 }
 
 MANIFEST = {
@@ -55,16 +63,27 @@ MANIFEST = {
             "reader and the C member reads agree. The regenerated pairs are then decided by computation (finite), a pair that is not ok is reported with the "
             "offending member. Key derivations are Gallina functions on both sides: MAC keys agree for every hardware address of six or more bytes (first six bytes; refuted below six, where Go returns 0), VLAN pair and ALG key agree for all inputs; circuit-id keys agree for lengths "
             "1..32 at both option-82 positions the program recognises (Model of the extraction with its two branches as coded) and are refuted above; every Go IPv4 helper leaves the address byte-reversed relative to the network-order word the C reads (agreement iff the "
-            "address is a byte palindrome), likewise the LPM key. The constants and the derivations are tied to reality on every run: real Go values written by the "
+            "address is a byte palindrome), likewise the LPM key. Beyond the layout, every regenerated member is classified by how the C program uses it "
+            "(compared with packet bytes / native integer / unused; a member without entry or a retyped packet-bytes member is a broken obligation) and the "
+            "meaning-level encodings are theorems: native derivation agrees with the wire bytes for every element width and count, the BigEndian idiom leaves every "
+            "group byte-reversed (agreement iff all groups are palindromes) - IPv6 source bindings and the server MAC agree for all values, the ports of the "
+            "nat_sessions key agree iff both bytes are equal (refuted in general). The constants and the derivations are tied to reality on every run: real Go values written by the "
             "real Loader/managers (cilium/ebpf) into kernel maps of the C-declared size are read back raw and must equal the Model's bytes; clang's offsetof tables "
-            "(BPF target and x86-64) must equal the BTF-derived layouts; the real programs under BPF_PROG_TEST_RUN must find exactly the keys the Model says they find.",
+            "(BPF target and x86-64) must equal the BTF-derived layouts; the real programs under BPF_PROG_TEST_RUN must find exactly the keys the Model says they find "
+            "and honour packets carrying the IPv6 address / MAC the real manager API was given (member bytes read at the regenerated C offset).",
     "note": "Theorems are about the generic layout model and hand-written models of the derivation functions; the tie is the differential run (exhaustive over the "
-            "triples, sampled over values). Known findings: IPv4 byte order at six helper sites, LPM key, circuit-ids longer than 32 bytes, hardware addresses shorter than 6 bytes, option 82 holding only a one-byte circuit-id. Fixed: PortBlock widths, "
+            "triples, sampled over values). Known findings: IPv4 byte order at eight helper sites / members, ports of the nat_sessions lookup key, LPM key, circuit-ids longer than 32 bytes, hardware addresses shorter than 6 bytes, option 82 holding only a one-byte circuit-id. Fixed: PortBlock widths, "
             "NATSession padding, per-CPU stats reads. walledgarden has no C side; HashCircuitID has no C side.",
     "technique": "translator (BTF + go/types) -> Rocq: generic encode/decode theorems + vm_compute decision per regenerated pair + key-derivation theorems; differential "
                  "correspondence through real kernel maps and BPF_PROG_TEST_RUN",
     "design_ref": "DESIGN.md §8 C06, §4.1; docs/C06.md",
 }
+
+ENC_CODE = {1: "map / record without a usage table (new map: no member's encoding was ever examined)",
+            2: "member without a usage entry (new or renamed member: how the program uses it - packet bytes, arithmetic, unused - was never examined)",
+            3: "member the program compares with packet bytes was retyped on the C side (element width / count changed): its encoding must be re-established",
+            4: "member the program compares with packet bytes was retyped on the Go side (element width / count changed): its encoding must be re-established",
+            5: "usage entry for a member that no longer exists"}
 
 REASON = {1: "unsupported construct (bit-field, union, int/uint/pointer member)", 2: "translator: Go offsets not sequential",
           3: "member differs in offset / width / element count", 4: "member name differs (members reordered or renamed)",
@@ -135,18 +154,36 @@ def run_inner(ctx):
     phase('gen_layouts')
     # 2. static verdict inside Coq: which regenerated pair / member is not ok
     static_viol, static_known = [], {}
+    enc_flags, net_members, keys_with_holes = [], [], []
     ok_model, mlog = verif.coq_make(["Gen/Layouts.vo", "Model/LayoutCheck.vo"])
     if not ok_model:
         ctx.log("[coq] model build failed:\n" + mlog[-1500:])
         cause.append("theorem:Model/LayoutCheck or Gen/Layouts does not build")
     elif pairs:
         sv = os.path.join(work, "static_verdict.v")
-        open(sv, "w").write("From Coq Require Import NArith List. Import ListNotations.\nFrom Verif Require Import Model.Layout Gen.Layouts Model.LayoutCheck.\n"
-                            "Definition R := Eval vm_compute in static_verdict all_pairs.\nPrint R.\n")
-        rows, err = verif.eval_cases_file(sv)
-        if rows is None:
-            cause.append("theorem:static verdict did not evaluate: " + err[:300])
+        open(sv, "w").write("From Coq Require Import NArith List. Import ListNotations.\nFrom Verif Require Import Model.Layout Gen.Layouts Model.LayoutEnc Model.LayoutCheck.\n"
+                            "Definition R := Eval vm_compute in [static_verdict all_pairs; enc_verdict all_pairs; net_members all_pairs; "
+                            "map (fun p => [b2n (c_dense p)]) all_pairs].\nPrint R.\n")
+        rows4, err = verif.eval_cases_file(sv)
+        if rows4 is None or len(rows4) != 4:
+            cause.append("theorem:static verdict did not evaluate: " + (err or "")[:300])
         else:
+            rows, enc_rows, net_rows, dense_rows = rows4
+            # (b) meaning-level encoding: every regenerated member must have a usage entry, and a member the programs compare with
+            #     packet bytes must still have the element width / count its entry was established for
+            for pi, k, code in enc_rows:
+                p = byidx[pi]
+                cs, gs = sig_members(p["c"] or []), sig_members(p["go"] or [])
+                enc_flags.append({"pair": p["name"], "code": code, "what": ENC_CODE.get(code, str(code)),
+                                  "c": cs[k] if code in (2, 3, 4) and k < len(cs) else None,
+                                  "go": gs[k] if code in (2, 3, 4) and k < len(gs) else None, "sites": p.get("sites")})
+            for pi, k, dyn in net_rows:
+                p = byidx[pi]
+                cs = sig_members(p["c"] or [])
+                net_members.append({"pair": p["name"], "member": cs[k]["name"] if k < len(cs) else "?", "meaning_level_observation": bool(dyn)})
+            for pi, (d,) in enumerate(dense_rows):
+                if not d and byidx[pi]["role"] == "key":
+                    keys_with_holes.append(byidx[pi]["name"])
             for i, (reason, k, marked) in enumerate(rows):
                 if reason == 0:
                     continue
@@ -161,6 +198,11 @@ def run_inner(ctx):
                 else:
                     static_viol.append(v)
 
+    for f in enc_flags:
+        nm = (f["c"] or {}).get("name", "") if f["c"] else ""
+        cause.append("theorem:encoding of %s member '%s' not established: %s" % (f["pair"], nm, f["what"]))
+    if keys_with_holes:
+        cause.append("theorem:key type with bytes no member covers (implicit padding inside a key compared as raw memory): " + ", ".join(keys_with_holes))
     phase('static verdict')
     # 3. proof obligations
     targets = ["Props/C06.vo"] + SPEC["check_vo"]
@@ -179,6 +221,15 @@ def run_inner(ctx):
         if bad:
             cause.append("theorem:forbidden-constructs " + ", ".join(bad))
 
+    cinfo = {"consts_tied": 0, "consts_regenerated": 0, "consts_failed": [], "notes": []}
+    ccause = []
+    if ok:
+        try:
+            cok, ccause, cinfo = verif.consts_check(ctx)
+            cause.extend(ccause)
+            notes.extend("consts: " + n for n in cinfo["notes"])
+        except Exception as ex:   # the constants step must never hide the layout verdict
+            notes.append("consts: check did not run: %r" % (ex,))
     phase('props')
     # 4. offsetof tables: the compilers' own view of every C struct, BPF target and x86-64
     inc = ["-I" + os.path.join(verif.VERIF, "cbpf", "include"), "-I/usr/include/x86_64-linux-gnu", "-I" + os.path.join(ctx.repo, "bpf")]
@@ -321,8 +372,14 @@ def run_inner(ctx):
     nth = len(pc["theorems"]) if pc else 0
     npairs = len(pairs)
     pairs_ok = npairs - len(static_viol) - len(static_known)
+    ctied = cinfo.get("consts_tied", 0)
+    cdis = 0 if (ccause and not cinfo.get("consts_failed")) else ctied - len(cinfo.get("consts_failed") or [])
     cov = {
-        "obligations": max(nth + npairs, 1), "discharged": (nth if (pc and pc["ok"]) else 0) + pairs_ok,
+        "obligations": max(nth + npairs + ctied, 1), "discharged": (nth if (pc and pc["ok"]) else 0) + pairs_ok + cdis,
+        "consts_tied": ctied, "consts_regenerated": cinfo.get("consts_regenerated", 0),
+        "member_encodings_not_established": enc_flags,
+        "members_compared_with_packet_bytes": net_members,
+        "keys_with_implicit_padding": keys_with_holes,
         "checker_cmd": "tools/gen_layouts -> coq/Gen/Layouts.v; make -C coq %s && coqc -Q coq Verif coq/%s (Print Assumptions captured); static_verdict all_pairs by vm_compute" % (" ".join(targets), SPEC["props"]),
         "trusted_base": verif.TRUSTED_COMMON + [
             "tools/gen_layouts (BTF via cilium/ebpf btf, go/types; ~600 lines, output human-diffable in coq/Gen/Layouts.v and cross-checked against real bytes and clang's offsetof tables on every run)",
@@ -343,7 +400,8 @@ def run_inner(ctx):
         "samples": samples or [{"note": "no cases ran"}],
         "kernel_bpf": drv["kernel_bpf"], "kernel_test_runs": drv["kernel_test_runs"], "bpf_object_dir": bpfdir, "bpf_build_ok": objs_ok,
         "unexercised_pairs": drv["unexercised_pairs"],
-        "refuted_clauses": ["C06_ipv4_key_agree_refuted", "C06_lpm_key_agree_refuted", "C06_circuit_key_agree_refuted", "C06_mac_key_agree_refuted", "C06_circuit_extract_short_option_refuted"],
+        "refuted_clauses": ["C06_ipv4_key_agree_refuted", "C06_lpm_key_agree_refuted", "C06_circuit_key_agree_refuted", "C06_mac_key_agree_refuted", "C06_circuit_extract_short_option_refuted",
+                             "C06_ipv6_member_words_be_refuted", "C06_port_net_agree_refuted"],
         "broken_obligations": cause, "notes": notes,
         "modelled_not_verified": SPEC["modelled"],
     }
